@@ -253,7 +253,7 @@ def run(ctx):
               "cache lookups: %s" % [A.show(lr.call_expr(t, b)[2][2]) for b, t in gets], lf.loc())
     for b, t in alias:
         ok1, _ = lc.guarded(b, A.cmp_fact({"Ne"}, Path("param2.qtype"), is_cname_q))
-        ok2, _ = lc.guarded(b, lambda fct: fct[0] == "call" and fct[1].endswith("Vec::<T, A>::is_empty") and fct[3] is True
+        ok2, _ = lc.guarded(b, lambda fct: fct[0] == "call" and A.is_empty_name(fct[1]) and fct[3] is True
                             and any(x[0] == "call" and x[3] == (lf.key, direct[0][0]) for x in A.walk(fct[2][0])) if direct else False)
         ctx.check(ok1 and ok2, "C10.5", "cache:cname-lookup-guard", "CNAME lookup only if qtype != CNAME and the direct lookup was empty",
                   "the cached-alias lookup is not restricted to non-CNAME questions with an empty direct hit", lf.loc(b))
